@@ -48,7 +48,7 @@ u = dict(name='mpz_mul', props=['C01', 'C04', 'C05', 'C15'], source='mpz/mul.c',
          enforce=['__gmpz_mul'], extra_sources=['mpz/realloc.c'],   # the real _mpz_realloc (a replaced call only 'may' free the old block: useless under the leak check)
          replace=['__gmpn_mul_1', '__gmpn_mul', '__gmpn_sqr', '__gmpn_mul_basecase', '__gmpn_sqr_basecase'],
          functions={'__gmpz_mul': dict(loops={0: copy_loop(['gk', 'gj']), 1: copy_loop(['gk', 'gj'])})},
-         assumptions=['mpz_mul computes w->_mp_alloc * 8 in int: allocations >= 2^28 limbs excluded by the contract', 'mpn_mul, mpn_sqr, mpn_mul_basecase, mpn_sqr_basecase(asm): ASSUMED shape contracts (contracts/mul_assumed.h): size/non-overlap preconditions, un+vn limbs written, top limb returned, un+vn or un+vn-1 significant limbs; the PRODUCT VALUE is not specified'],
+         assumptions=['mpn_mul, mpn_sqr, mpn_mul_basecase, mpn_sqr_basecase(asm): ASSUMED shape contracts (contracts/mul_assumed.h): size/non-overlap preconditions, un+vn limbs written, top limb returned, un+vn or un+vn-1 significant limbs; the PRODUCT VALUE is not specified'],
          harness=H % dict(W=mpz_obj('W'), U=mpz_obj('U'), V=mpz_obj('V'), alias=ALIAS3), timeout=900, cbmc_flags=['--memory-leak-check'],
          selftest=[('__gmpz_mul', r'free_me_size = w->_mp_alloc;', 'free_me_size = wsize;'),
                    ('__gmpz_mul', r'if \(wp == vp\)\s*vp = up;', ';'),
